@@ -28,7 +28,8 @@ type oaProgram struct {
 	Types      map[string]string `json:"types"`
 	Variations []string          `json:"variations,omitempty"` // root-level instance texts the rules accept (besides the example)
 	Tags       []string          `json:"tags,omitempty"`
-	Warm       []string          `json:"warm,omitempty"` // call prefix (SchemaApi_orders) after which a second object is converted
+	Warm       []string          `json:"warm,omitempty"`       // call prefix (SchemaApi_orders) after which a second object is converted
+	OptDef     bool              `json:"optdefault,omitempty"` // the schema objects are created with AreKeysOptionalByDefault
 }
 
 type oaLine struct {
@@ -52,9 +53,11 @@ func oaConvert(p oaProgram) (*oaLine, []core.Finding, bool) {
 	skipped := false
 	fs := core.Guard("openapi", func() []core.Finding {
 		s := jschema.New("root", p.Root)
+		s.AreKeysOptionalByDefault = p.OptDef
 		typeObjs := map[string]*jschema.JSchema{}
 		for n, t := range p.Types {
 			ts := jschema.New(n, t)
+			ts.AreKeysOptionalByDefault = p.OptDef
 			typeObjs[n] = ts
 			if err := s.AddType(n, ts); err != nil {
 				skipped = true
@@ -92,8 +95,11 @@ func oaConvert(p oaProgram) (*oaLine, []core.Finding, bool) {
 		}
 		if len(p.Warm) > 0 {
 			s2 := jschema.New("root", p.Root)
+			s2.AreKeysOptionalByDefault = p.OptDef
 			for n, t := range p.Types {
-				_ = s2.AddType(n, jschema.New(n, t))
+				t2 := jschema.New(n, t)
+				t2.AreKeysOptionalByDefault = p.OptDef
+				_ = s2.AddType(n, t2)
 			}
 			if pn := warmUp(s2, p.Warm); pn != "" {
 				fs = append(fs, core.Finding{Class: "openapi:panic:" + p.Family, What: fmt.Sprintf("accepted schema %q: panic %s during %v", p.Root, pn, p.Warm)})
@@ -401,6 +407,17 @@ func runC08(c *core.Ctx) error {
 	c.Set("programs", len(progs))
 	if _, err := loadCallOrders(); err != nil {
 		return err
+	}
+	// every fifth program also with keys that are optional by default (the example still has every key: it must
+	// be an instance of the conversion, whose `required` list is then shorter)
+	np := len(progs)
+	for i := 0; i < np; i += 5 {
+		q := progs[i]
+		q.ID = len(progs)
+		q.OptDef = true
+		q.Variations = nil
+		q.Family += ":keys-optional-by-default"
+		progs = append(progs, q)
 	}
 	for i := range progs {
 		progs[i].Warm = callPrefix(i, c.Seed)
